@@ -206,7 +206,9 @@ def plan(tier, seed, workdir):
             pre = _pre(ka, 'a') + _pre(kb, 'b')
             body += hgen.harness('ops', f'a: {PT[ka]}, b: {PT[kb]}', pre, core_call='core_ops(a, b)')
             path = hgen.write_module(workdir, f'c03_op_{ka}_{kb}', body)
-            hgen.ch_tasks(p, path, 'ops', timeout, family='operator matrix', kinds=[ka, kb])
+            sizes = {'float': 7, 'dt': 6, 'other': 10, 'null': 1}
+            dom = {'a': list(range(sizes[ka])), 'b': list(range(sizes[kb]))} if ka in sizes and kb in sizes else None
+            hgen.ch_tasks(p, path, 'ops', timeout, family='operator matrix', kinds=[ka, kb], enum=dom)
     arith = c03spec.shapes(['+', '*', '<', '==', '-'], 2)
     logic = c03spec.shapes(['&&', '||'], 2)
     rng.shuffle(arith)
@@ -223,7 +225,9 @@ def plan(tier, seed, workdir):
             pre = [f'len(vals) == {nleaf}'] + ([f'all(0 <= v < 12 for v in vals)'] if mode != 'int' else [])
             body += hgen.harness('order', 'vals: List[int]', pre, core_call='core_order(vals)')
             path = hgen.write_module(workdir, f'c03_ord_{mode}_{n:03d}', body)
-            hgen.ch_tasks(p, path, 'order', timeout, est=20, family='order / once / laziness', expr=c03spec.render(tree), leaves=mode)
+            import itertools
+            dom = {'vals': [list(c) for c in itertools.product(range(12), repeat=nleaf)]} if (mode != 'int' and 12 ** nleaf <= 1728) else None
+            hgen.ch_tasks(p, path, 'order', timeout, est=20, family='order / once / laziness', expr=c03spec.render(tree), leaves=mode, enum=dom)
     info = libinfo.functions()
     for alias, target in sorted(ALIASES.items()):
         fi = info.get(target)
